@@ -317,6 +317,8 @@ def execute(case, stats):
     stats.inc(f"swarm.partition={case['sched']['partition']['kind']}")
     stats.inc(f"swarm.scheduler={case['sched']['policy']['kind'] if 'decisions' not in case else 'replay'}")
     sig, nshared = sim2.conflict_signature()
+    if nshared:
+        stats.add("conflict_signatures", sig)  # distinct orders of (worker, load|store) on elements touched by >= 2 workers
     for k, v in sim2.probe.items():
         stats.inc("probe." + k, v)
     res["decisions"] = sim2.decisions
